@@ -1196,7 +1196,13 @@ class DirectiveParser(Parser):
         # Match system include
         try:
             path_tokens = self.__path(Operator, "<", ">")
-            path_str = "".join([str(t) for t in path_tokens])
+            # A blank between two tokens is part of the header name.
+            path_str = "".join(
+                [
+                    (" " if t.prev_white and i > 0 else "") + str(t)
+                    for i, t in enumerate(path_tokens)
+                ],
+            )
             if util.valid_path(path_str):
                 return IncludePath(path_str, system=True)
         except ParseError:
